@@ -124,7 +124,8 @@ def check(e, env=None) -> Any:
     if k == "has":
         return "b"
     if k in ("macro", "lmacro"):
-        et = elem_type(e[2])
+        # an empty range has no element to read the variable's type from: the generator declares it (6th field)
+        et = elem_type(e[2]) if e[2] else (tuple(e[5]) if len(e) > 5 and isinstance(e[5], list) else (e[5] if len(e) > 5 else "dyn"))
         env2 = dict(env)
         env2[e[3]] = et
         bt = check(e[4], env2)
@@ -224,7 +225,7 @@ def subst(e, name, spec):
     if k == "list":
         return ["list", [subst(x, name, spec) for x in e[1]]]
     if k in ("macro", "lmacro"):
-        return e if e[3] == name else [k, e[1], e[2], e[3], subst(e[4], name, spec)]
+        return e if e[3] == name else [k, e[1], e[2], e[3], subst(e[4], name, spec)] + e[5:]
     return [k] + [subst(x, name, spec) if _is_expr(x) else x for x in e[1:]]
 
 
@@ -386,10 +387,10 @@ class Gen:
                     # filter over elements of the same type / map producing t[1]
                     if rng.random() < 0.5:
                         elems = [small_val(rng, t[1]) for _ in range(rng.randint(0, 3))]
-                        return ["lmacro", "filter", elems, "x", self.body_bool(t[1], "x", d - 1)]
+                        return ["lmacro", "filter", elems, "x", self.body_bool(t[1], "x", d - 1), t[1]]
                     et = rng.choice(["i", "s", "d"])
                     elems = [small_val(rng, et) for _ in range(rng.randint(0, 3))]
-                    return ["lmacro", "map", elems, "x", self.body_of(t[1], et, "x", d - 1)]
+                    return ["lmacro", "map", elems, "x", self.body_of(t[1], et, "x", d - 1), et]
                 return self.lit(t)
             return self.lit(t)
         if t == "i":
@@ -499,7 +500,7 @@ class Gen:
             if c < 0.97:
                 et = rng.choice(["i", "s", "d", "u"])
                 elems = [small_val(rng, et) for _ in range(rng.randint(0, 4))]
-                return ["macro", rng.choice(MACROS), elems, "x", self.body_bool(et, "x", d - 1)]
+                return ["macro", rng.choice(MACROS), elems, "x", self.body_bool(et, "x", d - 1), et]
             return ["conv", "b", ["lit", ["s", [ord(ch) for ch in rng.choice(["true", "false"])]], self.via()]]
         return self.lit(t)
 
@@ -596,7 +597,7 @@ class C13(Prop):
         g = Gen(rng)
         cases = []
         types = V.SCALARS + [("l", "i"), ("l", "s"), ("l", "d"), ("m", "s", "i"), ("l", ("l", "i"))]
-        n = 260 if quick else 6000
+        n = 260 if quick else 4000
         for i in range(n):
             t = rng.choice(types) if rng.random() < 0.5 else rng.choice(["i", "u", "d", "b", "b", "b", "s", "y", "t", "r"])
             e = g.expr(t, rng.choice([1, 1, 2, 2, 3, 4]))
